@@ -128,3 +128,11 @@ class Timer:
 
     def left(self):
         return self.budget - (time.time() - self.t0)
+
+
+def patch_sleep():
+    """time is not part of the oracle: no real sleeping between retries (backoff, asyncio)"""
+    import time
+    time.sleep = lambda s: None
+    _real_sleep = asyncio.sleep
+    asyncio.sleep = lambda s, *a, **k: _real_sleep(0)
